@@ -201,7 +201,10 @@ func (d *Decls) text(groups map[string]bool) string {
 	}
 	var gs []string
 	for g := range d.axioms {
-		if g == "core" || groups[g] || (g == "bytes_assoc" && groups["bytes"] && !groups["noassoc"]) {
+		if g == "bytes" && groups["nobytes"] {
+			continue // lemma about list structure only: bcat stays uninterpreted
+		}
+		if g == "core" || groups[g] || (g == "bytes_assoc" && groups["bytes"] && !groups["noassoc"] && !groups["nobytes"]) {
 			gs = append(gs, g)
 		}
 	}
